@@ -121,7 +121,7 @@ fn nth(len: usize, idx: u64) -> String {
 pub const REDUCED: [&str; 20] = ["1", ".", "e", "+", "-", "*", "/", "^", "%", "(", ")", "{", "}", ",", "m", "t", "o", "é", " ", "\u{3000}"];
 
 pub fn run_check(ctx: &Ctx) {
-    ctx.set_rule("all strings up to the stated length over a 40-symbol alphabet (digits, operators, letters, braces, multi-byte characters, Unicode blanks) are enumerated, plus random longer strings and a fixed family of inputs with one token of 2^16..2^17 bytes (blanks, digits, letters) or with 2 000..65 000 small tokens; oracle: tokens non-empty, contiguous, on char boundaries, covering the input, the root parse tree's leaves equal the token sequence (start, end, kind), also right after the unit parser ran on the same string and thread; non-trivial = at least two different token kinds; enumerated strings are distinct by construction");
+    ctx.set_rule("all strings up to the stated length over a 40-symbol alphabet (digits, operators, letters, braces, multi-byte characters, Unicode blanks) are enumerated, plus random longer strings and a fixed family of inputs with one token of 2^16..2^17 bytes (blanks, digits, letters) or with 2 000..65 000 small tokens, and an alignment sweep (a run of 0..130 equal token characters — letters, digits, blanks, degree signs, points — followed by each of 13 multi-byte characters, behind three prefixes and before three suffixes); oracle: tokens non-empty, contiguous, on char boundaries, covering the input, the root parse tree's leaves equal the token sequence (start, end, kind), also right after the unit parser ran on the same string and thread; non-trivial = at least two different token kinds; enumerated strings are distinct by construction");
     let corpus: Vec<(String, StrCase)> = load_corpus("C12");
     let cases: Vec<StrCase> = corpus.into_iter().map(|c| c.1).collect();
     ctx.run_list("corpus", &cases, |c| check_str(&c.input, true), |c| to_json(c));
@@ -146,6 +146,35 @@ pub fn run_check(ctx: &Ctx) {
         |c| check_str(&c.input, true),
         |c| to_json(c),
     );
+    // alignment sweep: a run of 0..=130 equal token characters, then one multi-byte character, at every offset —
+    // whatever block size a scanner may take a run in (8, 16, 32, 64, 128 bytes), the character lands on every
+    // position relative to it
+    {
+        const RUN: [&str; 10] = ["a", "Z", "7", "0", " ", "\t", "°", "'", "e", "."];
+        const MB: [&str; 13] = ["°", "µ", "²", "é", "\u{a0}", "‰", "′", "İ", "\u{2003}", "日", "😀", "\u{feff}", "\u{3000}"];
+        const PRE: [&str; 3] = ["", "1 ", "(2"];
+        const SUF: [&str; 3] = ["", "C to K", " + 1"];
+        let maxk = 131u64;
+        let total = RUN.len() as u64 * MB.len() as u64 * PRE.len() as u64 * SUF.len() as u64 * maxk;
+        ctx.run_enum(
+            "alignment-sweep",
+            total,
+            |mut i| {
+                let k = (i % maxk) as usize;
+                i /= maxk;
+                let r = RUN[(i % RUN.len() as u64) as usize];
+                i /= RUN.len() as u64;
+                let m = MB[(i % MB.len() as u64) as usize];
+                i /= MB.len() as u64;
+                let p = PRE[(i % PRE.len() as u64) as usize];
+                i /= PRE.len() as u64;
+                let sfx = SUF[i as usize];
+                Some(format!("{}{}{}{}", p, r.repeat(k), m, sfx))
+            },
+            |s| check_str(s, false),
+            |s| json!({"input": s}),
+        );
+    }
     let huge = huge_token_inputs();
     ctx.run_list("huge-tokens", &huge, |c| check_str(&c.text(), false), |c| to_json(c));
     ctx.run_gen("random-unicode", || ".{0,30}".prop_map(|s| StrCase { input: s }), n / 3, |c| check_str(&c.input, true), |c| to_json(c));
